@@ -26,7 +26,7 @@ func chars(s string) []any {
 }
 
 // floatJSON encodes a float64 exactly as sign / numerator / 2^e when it is a
-// small dyadic rational, else as a class the specification never produces.
+// small dyadic rational, else opaquely by the bits of the float64 (class opq).
 func floatJSON(f float64) M {
 	switch {
 	case math.IsNaN(f):
@@ -47,7 +47,7 @@ func floatJSON(f float64) M {
 		e++
 	}
 	if a != math.Trunc(a) || a >= 1<<30 {
-		return M{"c": "big", "neg": neg, "n": 0, "e": 0, "txt": fmt.Sprint(f)}
+		return M{"c": "opq", "neg": false, "n": 0, "e": 0, "bits": fmt.Sprintf("%016x", math.Float64bits(f))}
 	}
 	return M{"c": "fin", "neg": neg, "n": int(a), "e": e}
 }
